@@ -62,6 +62,8 @@ def run(tier):
     if runs:
         rep.sample({"fn": runs[0]["fn"], "consumed_bytes": runs[0]["input"], "base": runs[0]["base"]["res"], "with_suffix": runs[0]["ext"][1]["res"]})
     rep.assumptions.append("Slice provenance of defragmented results (record vs internal buffer) is checked by C07 on every transition (src field)")
+    # (growth) locality at real buffer sizes: the structure followed by 10 MiB - 1 .. 2^24 + 1 bytes
+    common.huge_buffers(rep, binary, PROP)
     return rep.finish("model_checking",
                       "model cases = 49 structures (accepted and complete-but-malformed with lying nested lengths) of 30 self-delimiting parsers x 5 "
                       "suffixes; relational runs = every accepted input of the TLC corpora and of a seeded fuzz corpus re-run on its consumed "
